@@ -41,6 +41,7 @@ TMatch ==
     /\ \E h \in pending : Match(h)
     /\ lastEff'.eff = CfgOf(Cfg[Ev.rule])
     /\ Ev.res = Ev.fresh
+    /\ Ev.res1 = Ev.res2          \* a second call on the same object is an "earlier run" too
     /\ l' = l + 1
     /\ UNCHANGED <<tid, verdict>>
 Reject ==
@@ -49,6 +50,7 @@ Reject ==
     /\ verdict' = (IF Ev.outcome # "ok" THEN "rej:C14_OperationFailed"
                    ELSE IF pending = {} THEN "rej:C14_ConfigIsNotTheRules"
                    ELSE IF Ev.res # Ev.fresh THEN "rej:C14_DiffersFromFreshProcess"
+                   ELSE IF Ev.res1 # Ev.res2 THEN "rej:C14_SecondCallOnTheSameObjectDiffers"
                    ELSE "rej:C14_OwnConfig")
     /\ UNCHANGED <<tid, l, g, pending, hist, lastEff>>
 Accept ==
